@@ -31,7 +31,7 @@ type interfereCase struct {
 	Interf  [][]iOp `json:"interf"` // Interf[n]: writes made inside callback invocation n
 }
 
-var interfereOps = []string{"Set", "Delete", "WriteCas0", "Remove", "SetX", "TombX", "Add", "Purge", "SubDoc"}
+var interfereOps = []string{"Set", "SetPE", "Delete", "WriteCas0", "Remove", "SetX", "TombX", "Add", "Purge", "SubDoc"}
 
 func runIOp(w *World, key string, op iOp, serial int) {
 	ds := w.Coll(op.H%len(w.Handles), 0)
@@ -41,6 +41,8 @@ func runIOp(w *World, key string, op iOp, serial int) {
 	switch op.K {
 	case "Set":
 		_ = ds.Set(key, 0, nil, body)
+	case "SetPE":
+		_ = ds.Set(key, 0, &sgbucket.UpsertOptions{PreserveExpiry: true}, body)
 	case "Add":
 		_, _ = ds.AddRaw(key, 0, body)
 	case "Delete":
